@@ -588,7 +588,42 @@ class match_name_c:
     loops = {0: {"index": "k", "inv": ["forall(lambda j: implies(0 <= j and j < k, structure3d.residues[j].full_name != nt_id))"]}}
 
 
-CONTRACTS.update({"match_dssr_name_to_residue": match_name_c})
+# namedS(sid, key): some residue of the structure with identity sid carries the name; posS(sid, key): the position of the FIRST
+# one (-1 if none) - abbreviations (definitional lemma resolution_definition: namedS by explicit definition, posS by unique
+# description) that keep the quantifiers of name resolution out of the import loops' invariants.  They abbreviate statements
+# about structure.residues AS IT IS WHEN THE LEMMA IS INSTANTIATED; no function under contract here writes Structure3D.residues
+# (their frame obligations), so one identity denotes one residue list throughout.
+UFUNS.update({"namedS": (["int", "str"], "bool"), "posS": (["int", "str"], "int")})
+
+
+@spec
+def is_first(R, key, k):
+    """position k holds the FIRST residue of the list that carries the name"""
+    return 0 <= k and k < len(R) and R[k].full_name == key and forall(lambda j: implies(0 <= j and j < k, R[j].full_name != key))
+
+
+LEMMAS["resolution_definition"] = {"kind": "definition", "params": ["s", "key"], "shapes": ["Structure3D", "str"], "ensures": [
+    "namedS(ident(s), key) == named(s.residues, key)",
+    "implies(namedS(ident(s), key), is_first(s.residues, key, posS(ident(s), key)))",
+    "implies(not namedS(ident(s), key), posS(ident(s), key) == 0 - 1)"]}
+
+
+@spec
+def res_of(s, n):
+    """the residue the DSSR nucleotide id n resolves to in structure s (where it resolves): the first one carrying the name"""
+    return s.residues[posS(ident(s), dssr_key(n))]
+
+
+class match_name_callee_c(match_name_c):
+    """the same contract as the import loops use it (resolution stated through namedS / posS); proved on the same code"""
+    ensures = ["implies(nt_id is None, result is None)",
+               "implies(nt_id is not None, (result is None) == (not namedS(ident(structure3d), dssr_key(some(nt_id)))))",
+               "implies(nt_id is not None and result is not None, some(result) == res_of(structure3d, some(nt_id)))"]
+    ensures_labels = {0: "no-name-no-residue", 1: "None-iff-no-residue-carries-the-name", 2: "else-the-first-residue-carrying-it"}
+    ghost_entry = ["use resolution_definition(structure3d, dssr_key(some(nt_id)))"]
+
+
+CONTRACTS.update({"match_dssr_name_to_residue": match_name_c, "match_dssr_name_to_residue@callee": match_name_callee_c})
 
 
 # --------------------------------------------------------------------------------------------- the DSSR JSON document
@@ -680,9 +715,9 @@ def doc_stacks(d):
 
 
 @spec
-def resolves(R, n):
+def resolves(s, n):
     """the DSSR nucleotide id n names a residue of the structure"""
-    return n is not None and named(R, dssr_key(some(n)))
+    return n is not None and namedS(ident(s), dssr_key(some(n)))
 
 
 # lwname(s): s is one of the 18 Leontis-Westhof member names; lwclass(s): that member (union encoding) - abbreviations
@@ -697,24 +732,23 @@ def valid_lw(l):
 
 
 @spec
-def pair_kept(R, p):
+def pair_kept(s, p):
     """a pair that carries a valid class and whose two residue names resolve"""
-    return resolves(R, p.nt1) and resolves(R, p.nt2) and valid_lw(p.LW)
+    return resolves(s, p.nt1) and resolves(s, p.nt2) and valid_lw(p.LW)
 
 
 @spec
-def pair_imported(R, p, b):
+def pair_imported(s, p, b):
     """b is the base pair the document's pair p denotes: the two resolved residues, the named class, no Saenger class"""
-    return (first_named(R, dssr_key(some(p.nt1)), b.nt1) and first_named(R, dssr_key(some(p.nt2)), b.nt2)
-            and b.lw == lwclass(some(p.LW)) and b.saenger is None)
+    return b.nt1 == res_of(s, some(p.nt1)) and b.nt2 == res_of(s, some(p.nt2)) and b.lw == lwclass(some(p.LW)) and b.saenger is None
 
 
 _PAIR_INV = [
     "len(S_p) == len(base_pairs) and len(base_pairs) >= 0 and len(P_p) == {n}",
-    "forall(lambda j: implies(0 <= j and j < len(S_p), 0 <= S_p[j] and S_p[j] < {n} and pair_kept(structure3d.residues, {PL}[S_p[j]]) "
-    "and pair_imported(structure3d.residues, {PL}[S_p[j]], base_pairs[j])))",
+    "forall(lambda j: implies(0 <= j and j < len(S_p), 0 <= S_p[j] and S_p[j] < {n} and pair_kept(structure3d, {PL}[S_p[j]]) "
+    "and pair_imported(structure3d, {PL}[S_p[j]], base_pairs[j])))",
     "forall(lambda j, j2: implies(0 <= j and j < j2 and j2 < len(S_p), S_p[j] < S_p[j2]))",
-    "forall(lambda l: implies(0 <= l and l < {n} and pair_kept(structure3d.residues, {PL}[l]), 0 <= P_p[l] and P_p[l] < len(S_p) and S_p[P_p[l]] == l))",
+    "forall(lambda l: implies(0 <= l and l < {n} and pair_kept(structure3d, {PL}[l]), 0 <= P_p[l] and P_p[l] < len(S_p) and S_p[P_p[l]] == l))",
 ]
 _PAIR_LABELS = ["one-source-pair-per-base-pair", "each-base-pair-joins-the-resolved-residues-with-the-named-class", "in-document-order-each-once",
                 "every-pair-with-valid-class-and-resolvable-names-is-kept"]
@@ -730,6 +764,7 @@ class parse_dssr_pairs_c:
     ensures = []
     modifies = []
     locals = {"base_pairs": "list[rec[BasePair]]", "stackings": "list[rec[Stacking]]"}
+    callee_variants = {"match_dssr_name_to_residue": "callee"}
     stop_before = "for stack in dssr.get('stacks'"
     ghost_entry = ["let S_p = empty('list[int]')", "let P_p = empty('list[int]')"]
     stop_ensures = [t.format(n="len(D.get('pairs', []))", PL="D.get('pairs', [])") for t in _PAIR_INV] + ["len(stackings) == 0"]
@@ -742,8 +777,86 @@ class parse_dssr_pairs_c:
         {"when": "before", "at": "for pair in dssr.get('pairs'", "label": "document-selected", "do": ["name dssr", "let D = dssr"]},
         {"when": "after", "at": "lw = match_dssr_lw(", "loop": 1, "label": "class-name", "do": ["use lw_name_definition(some(pair.LW))"]},
         {"when": "after", "at": "if nt1 is not None and nt2 is not None and (lw is not None)", "loop": 1, "label": "pair-done",
-         "do": ["let S_p = ite(pair_kept(structure3d.residues, pair), snoc(S_p, i), S_p)", "let P_p = snoc(P_p, len(S_p) - 1)"]},
+         "do": ["let S_p = ite(pair_kept(structure3d, pair), snoc(S_p, i), S_p)", "let P_p = snoc(P_p, len(S_p) - 1)"]},
     ]
 
 
 CONTRACTS.update({"parse_dssr_output@pairs": parse_dssr_pairs_c})
+
+
+# --------------------------------------------------------------------------------------------- the whole DSSR import
+@spec
+def members(st):
+    """the nucleotide ids of a stack, in stacking order"""
+    return split(st.nts_long, ",")
+
+
+@spec
+def step_ok(s, st, t):
+    """members t-1 and t of the stack are consecutive and both resolve in the structure"""
+    return (1 <= t and t < len(members(st)) and namedS(ident(s), dssr_key(members(st)[t - 1]))
+            and namedS(ident(s), dssr_key(members(st)[t])))
+
+
+@spec
+def stk_of_step(s, st, t):
+    return rec(Stacking, nt1=res_of(s, members(st)[t - 1]), nt2=res_of(s, members(st)[t]), topology=None)
+
+
+# SS[j], ST[j] = stack and member index of stacking j; POS[(a, t)] = position of the stacking of step t of stack a.
+# {SL}: the list of stacks; {dom}: which (stack a, step t) have been processed; {dj}: the same for the pair (SS[j], ST[j])
+_STACK_INV = [
+    "len(SS) == len(stackings) and len(ST) == len(stackings) and len(stackings) >= 0",
+    "forall(lambda j: implies(0 <= j and j < len(SS), 0 <= SS[j] and {dj} and step_ok(structure3d, {SL}[SS[j]], ST[j]) "
+    "and stackings[j] == stk_of_step(structure3d, {SL}[SS[j]], ST[j])))",
+    "forall(lambda j, j2: implies(0 <= j and j < j2 and j2 < len(SS), SS[j] < SS[j2] or (SS[j] == SS[j2] and ST[j] < ST[j2])))",
+    "forall(lambda a, t: implies(0 <= a and {dom} and step_ok(structure3d, {SL}[a], t), "
+    "0 <= POS[(a, t)] and POS[(a, t)] < len(SS) and SS[POS[(a, t)]] == a and ST[POS[(a, t)]] == t))",
+]
+_STACK_LABELS = ["one-source-step-per-stacking", "each-stacking-joins-two-consecutive-resolved-members-of-a-stack", "in-document-and-stack-order-each-step-once",
+                 "every-consecutive-resolvable-step-of-every-stack-is-imported"]
+
+
+def _stack_inv(SL, dom, dj):
+    return [t.format(SL=SL, dom=dom, dj=dj) for t in _STACK_INV]
+
+
+class parse_dssr_output_c:
+    """D = the document whose pairs / stacks are imported (the selected model's parameters, or the document itself);
+    S_p, P_p as in the prefix contract; SS, ST, POS: see _STACK_INV"""
+    params = {"file_path": "str", "structure3d": "Structure3D", "model": "opt[int]"}
+    requires = ["identified(structure3d.residues)"]
+    returns = "rec[BaseInteractions]"
+    raises = []
+    modifies = []
+    locals = {"base_pairs": "list[rec[BasePair]]", "stackings": "list[rec[Stacking]]"}
+    callee_variants = {"match_dssr_name_to_residue": "callee"}
+    ghost_returns = {"D": "DssrDoc", "S_p": "list[int]", "P_p": "list[int]", "SS": "list[int]", "ST": "list[int]", "POS": "dict[tuple[int,int],int]"}
+    ghost_entry = ["let S_p = empty('list[int]')", "let P_p = empty('list[int]')", "let SS = empty('list[int]')", "let ST = empty('list[int]')",
+                   "let POS = empty('dict[tuple[int,int],int]')"]
+    ensures = ([t.format(n="len(D.get('pairs', []))", PL="D.get('pairs', [])").replace("base_pairs", "result.basePairs") for t in _PAIR_INV]
+               + [t.replace("stackings", "result.stackings") for t in _stack_inv("D.get('stacks', [])", "a < len(D.get('stacks', []))", "SS[j] < len(D.get('stacks', []))")]
+               + ["len(result.baseRiboseInteractions) == 0 and len(result.basePhosphateInteractions) == 0 and len(result.otherInteractions) == 0"])
+    ensures_labels = dict(enumerate(_PAIR_LABELS + _STACK_LABELS + ["no-other-kind-of-interaction"]))
+    loops = {
+        0: {"inv": []},
+        1: {"index": "i", "iter": "PL", "touches": {"TextFile.lines": []}, "inv": [t.format(n="i", PL="PL") for t in _PAIR_INV],
+            "labels": dict(enumerate(_PAIR_LABELS))},
+        2: {"index": "u", "iter": "SL", "touches": {"TextFile.lines": []}, "inv": _stack_inv("SL", "a < u", "SS[j] < u"),
+            "labels": dict(enumerate(_STACK_LABELS))},
+        3: {"touches": {"TextFile.lines": []},
+            "inv": _stack_inv("SL", "(a < u or (a == u and t < i))", "(SS[j] < u or (SS[j] == u and ST[j] < i))") + ["1 <= i and len(nts) == len(members(SL[u]))"],
+            "labels": dict(enumerate(_STACK_LABELS + ["step-index"]))},
+    }
+    ghost = [
+        {"when": "before", "at": "for pair in dssr.get('pairs'", "label": "document-selected", "do": ["name dssr", "let D = dssr"]},
+        {"when": "after", "at": "lw = match_dssr_lw(", "loop": 1, "label": "class-name", "do": ["use lw_name_definition(some(pair.LW))"]},
+        {"when": "after", "at": "if nt1 is not None and nt2 is not None and (lw is not None)", "loop": 1, "label": "pair-done",
+         "do": ["let S_p = ite(pair_kept(structure3d, pair), snoc(S_p, i), S_p)", "let P_p = snoc(P_p, len(S_p) - 1)"]},
+        {"when": "after", "at": "if nt1 is not None and nt2 is not None:", "loop": 3, "label": "step-done",
+         "do": ["let SS = ite(step_ok(structure3d, SL[u], i), snoc(SS, u), SS)", "let ST = ite(step_ok(structure3d, SL[u], i), snoc(ST, i), ST)",
+                "let POS = dstore(POS, (u, i), len(SS) - 1)"]},
+    ]
+
+
+CONTRACTS.update({"parse_dssr_output": parse_dssr_output_c})
